@@ -16,12 +16,15 @@
 (* written does / does not":                                               *)
 (*    BlankStops     - a blank line ends reading (readline().strip()=="")  *)
 (*    EndEmptyRaises - END with an empty residue buffer raises             *)
+(*    GluedKeepsWater- drop_water keys on the first whitespace token, so   *)
+(*                     "HETATM10001" (5-digit serial) is not recognised    *)
 (***************************************************************************)
 EXTENDS Naturals, Integers, Sequences, FiniteSets, TLC, Json, SequencesExt
 
 CONSTANTS MaxLen,          \* longest file explored
           BlankStops,      \* TRUE: code as written before the fix
           EndEmptyRaises,  \* TRUE: code as written before the fix
+          GluedKeepsWater, \* TRUE: drop_water misses HETATM records whose serial is glued to the record name
           DropWaterChoices,\* subset of BOOLEAN: values of --drop-water explored
           Alphabet,        \* the abstract lines files are made of
           Emit             \* TRUE: print every finished file with the model's result (replay leg)
@@ -67,7 +70,9 @@ ReadLine(s) ==
 (***************************************************************************)
 (* main.drop_water on the record list.                                     *)
 (***************************************************************************)
-Dropped(pl, d) == IF d THEN SelectSeq(pl, LAMBDA r : ~IsWater(r.s)) ELSE pl
+Dropped(pl, d) ==
+  IF d THEN SelectSeq(pl, LAMBDA r : ~(IsWater(r.s) /\ ~(GluedKeepsWater /\ L(r.s).het /\ L(r.s).fmt = "wide")))
+  ELSE pl
 
 (***************************************************************************)
 (* Biomolecule.__init__ : the record loop as a fold.                       *)
